@@ -195,7 +195,7 @@ func TestReplay(t *testing.T) { kit.RunReplay(t) }
 func drawWorkload(t *rapid.T) *kit.Case {
 	cfg := gen.DrawConfig(t, gen.ConfigOpts{})
 	if rapid.Bool().Draw(t, "allext") {
-		cfg = gen.Config{GFM: true, DefList: true, Footnote: true, Typo: true, CJK: 1, AutoID: true, Attr: true, Unsafe: rapid.Bool().Draw(t, "unsafe"), XHTML: rapid.Bool().Draw(t, "xhtml"), FnPrefix: rapid.IntRange(0, 3).Draw(t, "fnp")}
+		cfg = gen.Config{GFM: true, DefList: true, Footnote: true, Typo: true, CJK: 1, AutoID: true, Attr: true, Unsafe: rapid.Bool().Draw(t, "unsafe"), XHTML: rapid.Bool().Draw(t, "xhtml"), FnPrefix: rapid.IntRange(0, 5).Draw(t, "fnp")}
 	}
 	c := kit.NewCase("workload", cfg.String())
 	nd := rapid.IntRange(2, 6).Draw(t, "ndocs")
